@@ -39,6 +39,7 @@ try:
                 rep.setdefault("alarm_detail", {})[c] = [l.strip()[:300] for l in out.splitlines() if l.startswith("  ") or l.startswith("VIOLATION")][:6] or out[-600:]
 finally:
     sh(["git", "-C", "/repo", "worktree", "remove", "--force", wt]); shutil.rmtree(wt, ignore_errors=True)
+    subprocess.run(["python3", os.path.join(ROOT, "tools", "cleanwork.py")], stdout=subprocess.DEVNULL)
 dst = os.path.join(ROOT, "seeded", name); os.makedirs(dst, exist_ok=True)
 for f in os.listdir(seed):
     if os.path.isfile(os.path.join(seed, f)):
